@@ -465,6 +465,19 @@ func evalC06(c *engine.Ctx, cs c06Case) {
 		c.Violate("ref2lib/rejected/"+padClass, fmt.Sprintf("%s %v %s pad %d pattern %d: %s", cs.Name, ks.Suite, dir, cs.PadLen, cs.PadPat, errStr(err)), cs)
 		return
 	}
+	// the peer retransmits (the same datagram, octet for octet): the same key object accepts it again
+	if cs.PadPat == 0 {
+		var again *message.IKEMessage
+		var aerr error
+		if pi := engine.Catch(func() { again, aerr = ike.DecodeDecrypt(append([]byte(nil), b...), nil, sa, roleOf(!cs.SenderI)) }); pi != nil {
+			c.Violate(pi.Sig(), "DecodeDecrypt of a retransmitted datagram panics: "+pi.Value, cs)
+			return
+		}
+		if aerr != nil || again == nil || univ.Project(again).Canon() != m.Canon() {
+			c.Violate("ref2lib/retransmission-refused/"+padClass, fmt.Sprintf("%s %v %s: the datagram was accepted, its identical retransmission is not: %v", cs.Name, ks.Suite, dir, aerr), cs)
+			return
+		}
+	}
 	g := univ.Project(got)
 	if g.Canon() != m.Canon() {
 		d := "header"
